@@ -6,7 +6,11 @@ CONFIG = {
     "lean_sources": ["OasisModel/Handlers"],
     "regen": [{"kind": "handlerfacts", "out": "HandlerFacts.lean"}],
     "generated_obligations": 17,
-    "drivers": [],
+    "drivers": [
+        {"name": "ledgerdrv", "needs_model": False,
+         "quick": ["-spec", "c08", "-cases", "2000", "-blocks", "14"],
+         "thorough": ["-spec", "c08", "-cases", "40000", "-blocks", "20"]},
+    ],
     "trusted_base": [
         "Lean 4.33 kernel; `decide +kernel` (kernel evaluation, no extra axioms) for the regenerated tables",
         "tools/gen/handlerfacts.go (go/ast syntax translation of handlers to Flow, ~600 lines) and the analysis OasisModel/Handlers/Flow.lean: the analysis is executable Lean evaluated by the kernel but its soundness w.r.t. a concrete path semantics is NOT proved here (sanity examples only) — it is part of the trusted base of this tie",
@@ -16,6 +20,6 @@ CONFIG = {
         "state-read/write failures are state-unavailable errors, which the multiplexer turns into a halt, not a failed transaction",
         "methods classified as reads do not modify state",
     ],
-    "partial": "Handlers are covered by regenerated control-flow facts, not by a full semantic model; vault/keymanager/beacon/roothash bodies are only in the facts. CheckTx/simulation purity (separate trees) is not in the Lean model. A differential driver on the real apps (state dump before/after a failing tx) is planned as second tie.",
+    "partial": "Handlers are covered by regenerated control-flow facts, not by a full semantic model; vault/keymanager/beacon/roothash bodies are only in the facts. CheckTx/simulation purity (separate trees) is not in the Lean model. Second tie: ledgerdrv -spec c08 drives the REAL staking app (AuthenticateTx + ExecuteTx as processTx does, gas limits exhausting at the byte charge / the operation charge / never) and requires, model-free, that a failed transaction leaves the full raw state dump unchanged except the signer's balance (-fee), nonce (+1) and the fee accumulator; the other applications' handlers are covered by the regenerated facts only.",
     "explanation": "Model theorems + regenerated handler facts (17 roots: authentication, post-execute, 15 handler roots).",
 }
